@@ -526,7 +526,7 @@ func replayCandidates(prop string, cands []*candidate, kf *KFFile) ([]*candidate
 		// C18 event obligations are confirmed by the race detector on a concurrent native run of the same instance
 		var plain []string
 		for _, c := range list {
-			if c.assert == "shared-operand-not-written" || c.assert == "global-state-written-only-under-mutex" {
+			if isEventObl(c.assert) {
 				if done, ok := raceDone[c.inst]; ok {
 					c.confirmed = done
 					continue
@@ -806,7 +806,8 @@ func validate(pd *propDef, results []InstResult, n int, seed int64) (int, []stri
 				if o.Verdict == "violated" {
 					if o.ID == "no-uncaught-panic" {
 						panicked = true
-					} else {
+					} else if !isEventObl(o.ID) {
+						// (event obligations exist in the executor only; they are confirmed by the race detector, not here)
 						fails = append(fails, o.ID)
 					}
 				}
@@ -891,7 +892,7 @@ func cmdReplay(args []string) {
 		fmt.Println("kernel-level counterexamples are replayed by the check itself (generated execution_test); re-run the check")
 		os.Exit(2)
 	}
-	if rf.Assert == "shared-operand-not-written" || rf.Assert == "global-state-written-only-under-mutex" {
+	if isEventObl(rf.Assert) {
 		raced, out := nativeRace(abs, tg)
 		fmt.Printf("harness=%s assert=%s native: 4 goroutines x 25 runs under the race detector: data race reported=%v\n", rf.Harness, rf.Assert, raced)
 		if raced {
@@ -997,4 +998,8 @@ func c18Summary(results []InstResult) map[string]interface{} {
 	sort.Strings(rl)
 	return map[string]interface{}{"shared_or_global_accesses_logged": events, "global_state_read_outside_mutex": rl, "global_state_written": writes, "writes_to_shared_operands": notes,
 		"atomic_by_model": []string{"sync.Pool Get/Put", "channel send/receive/select (densePool, headerPool, boolsPool)", "sync.Mutex Lock/Unlock"}}
+}
+
+func isEventObl(id string) bool {
+	return id == "shared-operand-not-written" || id == "global-state-written-only-under-mutex" || id == "pool-object-not-put-twice"
 }
